@@ -4,6 +4,7 @@ import Driver.Common
 import Driver.Ops.C07
 import ZepidVerif.Gen.Calc2
 import ZepidVerif.Gen.Diag
+import ZepidVerif.Gen.Icr
 namespace ZVD
 open ZV
 
@@ -76,6 +77,16 @@ def opDiag (a : Args) : Except String String := do
     | .ok (s, p) => pure ("ok " ++ one "se_" s ++ " " ++ one "sp_" p) | .error e => pure ("err " ++ showErr e)
   | _ => throw ("unknown-cls:" ++ cls)
 
-def opsC06Calc : OpTable := [("calc2", opCalc2), ("diag", opDiag)]
+/-- `icr b=<b10,b01,b11> v=<v10,v01,v11,c1001,c1011,c0111> alpha= px= pz=`: `interaction_contrast_ratio(ci='delta')` from
+    the fitted coefficients and their covariance entries -/
+def opIcr (a : Args) : Except String String := do
+  let ppf := ppfTab (← fl a "px") (← fl a "pz")
+  match (← fls a "b"), (← fls a "v") with
+  | [b10, b01, b11], [v10, v01, v11, c1001, c1011, c0111] =>
+    let r := Gen.icr_delta ppf b10 b01 b11 v10 v01 v11 c1001 c1011 c0111 (← fl a "alpha")
+    pure s!"ok point={showFloat r.1} lower={showFloat r.2.1} upper={showFloat r.2.2}"
+  | _, _ => throw "bad-arg:b/v"
+
+def opsC06Calc : OpTable := [("calc2", opCalc2), ("diag", opDiag), ("icr", opIcr)]
 
 end ZVD
